@@ -228,12 +228,22 @@ func renderFields(r *rand.Rand, fs []gField) string {
 		case 3:
 			sb.WriteString("   \t \n")
 		}
+		// lines far longer than any line-reader's default buffer (64 KiB): a comment, a string constant
+		switch r.Intn(60) {
+		case 0:
+			sb.WriteString("# " + strings.Repeat("long comment ", 5100+r.Intn(9000)) + "\n")
+		case 1:
+			sb.WriteString("string LICENSE=" + strings.Repeat("x", 65530+r.Intn(40)) + "\n")
+		}
 	}
 	for _, f := range fs {
 		noise()
 		sep := []string{" ", "  ", " \t", "\t ", " \t "}[r.Intn(5)]
 		lead := []string{"", " ", "\t", "    "}[r.Intn(4)]
 		tail := []string{"", " ", "  # the field", "\t", " # 0 = ok, 1 = low", "#x=y"}[r.Intn(6)]
+		if r.Intn(90) == 0 {
+			tail = " # " + strings.Repeat("z", 70000)
+		}
 		sb.WriteString(lead + f.Written + sep + f.Name + tail + "\n")
 	}
 	noise()
